@@ -89,8 +89,16 @@ fn parse_line(b: &[u8]) -> String {
                     }
                     Err(_) => "-".into(),
                 };
+                // the integer forms of the other subtag types and of the parsed identifier's variants
+                let ints = format!(
+                    "{:?}/{:?}/{:?}/{:?}",
+                    s.parse::<Script>().ok().map(u32::from),
+                    s.parse::<Region>().ok().map(u32::from),
+                    s.parse::<Variant>().ok().map(u64::from),
+                    li.as_ref().ok().map(|v| v.variants().map(|x| u64::from(*x)).collect::<Vec<u64>>())
+                );
                 format!(
-                    "{}|{}|{}|{}|{}|{}|{}|{}|streq={streq}|raw={raw}",
+                    "{}|{}|{}|{}|{}|{}|{}|{}|streq={streq}|raw={raw}|ints={ints}",
                     show(s.parse::<Locale>().map(|v| v.to_string()).map_err(|e| format!("{e:?}"))),
                     show(s.parse::<LanguageIdentifier>().map(|v| v.to_string()).map_err(|e| format!("{e:?}"))),
                     show(s.parse::<unic_locale::extensions::ExtensionsMap>().map(|v| v.to_string()).map_err(|e| format!("{e:?}"))),
